@@ -21,7 +21,8 @@ def plan(tier):
                 'is sent to the long-lived engine and to a fresh engine on a byte copy of the same '
                 'database under the same virtual clock; a cell is (kind of last prefix request, probe, '
                 'same/other identity, version change, outcome)',
-        'min_monitor': {'twin_pairs_compared': 300, 'probes_identifierless': 100, 'connection_twin_pairs_compared': 80},
+        'min_monitor': {'twin_pairs_compared': 300, 'probes_identifierless': 100, 'connection_twin_pairs_compared': 80,
+                        'fresh_process_twins_compared': 100},
         'assumptions': ['probes are random-free so the twin is comparable byte for byte',
                         'copying the SQLite file between requests yields the committed store'],
     }
@@ -326,6 +327,7 @@ def run_case(ctx, case):
                 if go:
                     objs.append(go)
             last_raw_version = [None]
+            fresh_process_budget = [2 if ctx.tier == 'quick' else 6]
             for rnd in range(18):
                 # some random prefix traffic
                 for _ in range(rng.randrange(0, 4)):
@@ -371,6 +373,8 @@ def run_case(ctx, case):
                         continue
                     twin_path = d + '/twin.sqlite'
                     shutil.copyfile(srv.db_path, twin_path)
+                    pre_probe_copy = d + '/pre-probe.sqlite'
+                    shutil.copyfile(srv.db_path, pre_probe_copy)
                     t = clock.now
                     twin = rig.Server(twin_path, policies=srv.policies)
                     try:
@@ -393,6 +397,34 @@ def run_case(ctx, case):
                              'v=' if pv == lv else 'v!', outcome)
                     same_resp = rl.norm() == rt.norm()
                     same_dump = dump_l == dump_t
+                    if fresh_process_budget[0] > 0 and rng.random() < 0.08:
+                        # the same twin in a process of its own: whatever earlier requests left in module-level state of
+                        # the library (class attributes, caches, default arguments) is not there
+                        fresh_process_budget[0] -= 1
+                        import hashlib, pickle, subprocess, sys as _sys
+                        from kv import runner as _runner
+                        tp = d + '/twin-process.sqlite'
+                        shutil.copyfile(pre_probe_copy, tp)
+                        with open(d + '/job.pickle', 'wb') as jf:
+                            pickle.dump({'db': tp, 'policies': srv.policies, 'probe': preq, 'ident': list(pident), 'now': t}, jf)
+                        try:
+                            cp_ = subprocess.run([_sys.executable, '-m', 'kv.c11_child', d + '/job.pickle'], capture_output=True, text=True,
+                                                 timeout=120, cwd=_runner.ROOT)
+                            line = [l for l in cp_.stdout.splitlines() if l.startswith('RESULT ')]
+                        except subprocess.TimeoutExpired:
+                            line = []
+                        if line:
+                            import json as _json
+                            got = _json.loads(line[-1][7:])
+                            ctx.count('fresh_process_twins_compared')
+                            mine = hashlib.sha1(repr(sorted(dump_l.items())).encode()).hexdigest()
+                            if got['norm'] != repr(rl.norm()) or got['dump'] != mine:
+                                ctx.violation('%s|process-state' % pname, 'probe %s after a %s request: the long-lived engine answered %s; a '
+                                              'server process started afresh on a copy of the same store answered differently%s'
+                                              % (pname, kind, rl.brief(), '' if got['dump'] == mine else ' (stores differ afterwards)'),
+                                              {'last_kind': kind, 'probe': pname, 'probe_hex': preq.hex(), 'fresh': got['norm'][:600]})
+                        else:
+                            ctx.count('fresh_process_twin_failed')
                     if not (same_resp and same_dump):
                         what = 'placeholder' if idless else 'state'
                         if idless and rl.ok() and not rt.ok():
